@@ -105,6 +105,23 @@ Theorem C05_gaussian_lower_tri_refuted :
 Proof. exact gauss_lower_tri_refuted. Qed.
 Print Assumptions C05_gaussian_lower_tri_refuted.
 
+(* REFUTED class (finding Gaussian._sample|sqrtprec:tiny-entries-judged-triangular; fix proposed): the triangularity test has an
+   absolute tolerance, so the full matrix 2^-30 [[2,1],[1,1]] counts as lower triangular, only its lower triangle is inverted
+   and the covariance is wrong; at scale 1 the same matrix takes the general solve, and with an exact test it does at every scale *)
+Theorem C05_gaussian_tiny_scale_refuted :
+  let c : Q := 1 # 1073741824 in
+  let S1 : Qmat := [[2; 1]; [1; 1]]%Q in
+  exists (T : Qmat) (mean off : Qvec),
+    let S := qmscale c S1 in
+    is_lower S = true /\ tril S <> S /\
+    gauss_ok true false mean S off T = true /\
+    cov_matches tol6 1 (qmm (qtr S1) S1) (qmscale c T) = false /\
+    gauss_branch false S1 = BGeneral /\
+    gauss_ok_exact false mean S off (qmscale (/ c) [[1; -1]; [-1; 2]]%Q) = true /\
+    cov_matches tol6 1 (qmm (qtr S1) S1) [[1; -1]; [-1; 2]]%Q = true.
+Proof. exact gauss_tiny_scale_refuted. Qed.
+Print Assumptions C05_gaussian_tiny_scale_refuted.
+
 (* REFUTED class (finding GMRF._sample|periodic:dft-eigenvalue-pairing): the configuration GMRF(zeros(4),1,'periodic')
    as built by the code passes the model of the DFT sampler, and the covariance of its draws is not a generalised
    inverse of the precision P = D^T D of its own density *)
